@@ -647,8 +647,8 @@ def phase_e(rec, sched, quick):
     if cache is None:
         rec.count('E.cache_not_resettable')
     serial = [0]
-    cap = 120 if quick else 4000
-    levels = HDR_CEILING_LEVELS if cache is not None else (0,)
+    cap = 100 if quick else 4000
+    levels = (HDR_CEILING_LEVELS[:1] + HDR_CEILING_LEVELS[2:5] if quick else HDR_CEILING_LEVELS) if cache is not None else (0,)
     for li, level in enumerate(levels):
         for nthreads, maxp in ((2, 2), (3, 1)) if not quick else ((2, 2),):
             def once(tape, mine, level=level, nthreads=nthreads, maxp=maxp, li=li):
@@ -742,7 +742,7 @@ def run(rec):
             accept = safe_serial(rec, build, reqs, wsgi_call, isolated=not flaky)
             if accept is None:
                 continue
-            cap = 800 if quick else 12000
+            cap = 500 if quick else 12000
             counter = [0]
 
             def once(tape, mine, nthreads=nthreads, maxp=maxp, flaky=flaky, build=build, reqs=reqs, accept=accept, si=si):
